@@ -1,34 +1,39 @@
 #!/usr/bin/env python3
-"""Apply every seeded change to /repo in turn, run the quick check of its property (and report which rules fire), undo.
-Writes seeded/RESULTS.md.  /repo must be clean."""
+"""Every seeded change is applied in its own scratch worktree of /repo (/tmp/sm/<name>, removed afterwards; 12 at a time), the quick check of its
+property is run against that root (no evidence written) and the rules that fire are recorded.  Writes seeded/RESULTS.md (not when seed names are given)."""
 import json, os, subprocess, sys
 def sh(cmd, **kw): return subprocess.run(cmd, shell=True, text=True, stdout=subprocess.PIPE, stderr=subprocess.STDOUT, **kw)
-assert not sh('git -C /repo status --short').stdout.strip(), '/repo is not clean'
 rows = []
 hist = json.load(open('/verif/seeded/HISTORY.json'))
 only = sys.argv[1:]
-for name in sorted(os.listdir('/verif/seeded')):
+PAR = '--serial' not in sys.argv
+only = [a for a in only if not a.startswith('--')]
+def one(name):
+    """apply the seed in its own scratch worktree (/tmp/sm/<name>), run the quick check of its property against that root (no evidence written), remove it"""
     d = '/verif/seeded/' + name
-    if not os.path.isdir(d) or (only and name not in only): continue
-    meta = json.load(open(d + '/meta.json'))
-    prop = meta['property']
-    r = sh('git -C /repo apply --check %s/patch.diff' % d)
-    if r.returncode:
-        rows.append((name, prop, 'PATCH-NO-LONGER-APPLIES', '', meta.get('summary', '')[:110])); print(name, prop, 'PATCH-NO-LONGER-APPLIES (rebase it)', flush=True); continue
-    sh('git -C /repo apply %s/patch.diff' % d)
+    meta = json.load(open(d + '/meta.json')); prop = meta['property']
+    wt = '/tmp/sm/' + name
+    sh('git -C /repo worktree remove --force %s' % wt)
+    if sh('git -C /repo worktree add -q --detach %s HEAD' % wt).returncode: return (name, prop, 'WORKTREE-FAILED', '', '')
     try:
-        r = sh('./check %s --tier quick' % prop, cwd='/verif')
+        if sh('git -C %s apply %s/patch.diff' % (wt, d)).returncode:
+            return (name, prop, 'PATCH-NO-LONGER-APPLIES', '', meta.get('summary', '')[:110])
+        r = sh('./check %s --tier quick --root %s' % (prop, wt), cwd='/verif', env=dict(os.environ, VERIF_NO_EVIDENCE='1'))
         lines = r.stdout.splitlines()
         rules = sorted({l.split('rule=')[1].split(' at ')[0] for l in lines if l.strip().startswith('rule=')})
         verdict = 'DETECTED' if r.returncode == 1 else ('ANALYSIS-ERROR' if r.returncode == 2 else 'missed')
         if hist.get(name, {}).get('obsolete'):
-            # a later fix: commit in /repo made this change harmless: its demo must pass with the patch applied, and the check must be silent
-            dr = sh('PYTHONPATH=/repo /venv/bin/python %s/demo.py' % d)
+            dr = sh('PYTHONPATH=%s /venv/bin/python %s/demo.py' % (wt, d))
             verdict = ('OBSOLETE-SILENT' if r.returncode == 0 else 'OBSOLETE-BUT-ALARM') if dr.returncode == 0 else verdict
+        return (name, prop, verdict, ', '.join(rules), meta.get('summary', '')[:110])
     finally:
-        sh('git -C /repo checkout -- .')
-    rows.append((name, prop, verdict, ', '.join(rules), meta.get('summary', '')[:110]))
-    print(name, prop, verdict, rules, flush=True)
+        sh('git -C /repo worktree remove --force %s' % wt)
+names = [n for n in sorted(os.listdir('/verif/seeded')) if os.path.isdir('/verif/seeded/' + n) and (not only or n in only)]
+os.makedirs('/tmp/sm', exist_ok=True)
+from concurrent.futures import ThreadPoolExecutor
+with ThreadPoolExecutor(max_workers=12 if PAR else 1) as ex:
+    rows = list(ex.map(one, names))
+for r_ in rows: print(r_[0], r_[1], r_[2] + (' (rebase it)' if r_[2].startswith('PATCH') else ''), r_[3].split(', ') if r_[3] else [], flush=True)
 with open('/verif/seeded/RESULTS.md' if not only else os.devnull, 'w') as f:      # a partial run (names given) does not replace the table
     f.write('# Seeded changes versus the checks\n\nEach row: a change to ponyorm/pony written by a fresh sub-agent that saw only the property text '
             '(confirmed: compiles, pinned suite passes, demo fails with it / passes without).  The verdict is what `./check <property> --tier quick` says with the patch applied to /repo '
